@@ -19,10 +19,12 @@ PROPS = {
                 "fold), to_indexed_lossless (gray / gray+alpha / RGB / RGBA with or without key; build_palette specification by induction), indexed_to_channels_lossless (all four target types, "
                 "out-of-range index = opaque black on both sides), reduced_palette_lossless (invariant of the condensing loop), sorted_palette_lossless, expand_to_8_lossless (1/2/4 -> 8 bits, gray with or "
                 "without key and indexed: the 8-bit result shows what the packed rows showed, sample extraction per PNG 7.2, expandByte checked against it on all 256 bytes x 3 depths by kernel "
-                "evaluation). Still at per-pixel level only: packing 8 -> 1/2/4 bits and the interlacing change (their storage geometry is C18's subject); the chain over perform_reductions is tied by the lineage streams. Trusted: D1 (inflate∘deflate), "
+                "evaluation), reduce_depth_gray_lossless and reduce_depth_indexed_lossless (8 -> 1/2/4 bits: unpack-after-pack on every list of up to 8 low values, the row lemma by induction over the "
+                "chunks, the depth search's guarantee that every byte is the replication of its low bits, key rule on all 256 keys - all finite facts by kernel evaluation). ALL TEN reductions now have an "
+                "image-level theorem; the interlacing change is at geometry level (its placement tables are C18's); the chain over perform_reductions is tied by the lineage streams. Trusted: D1 (inflate∘deflate), "
                 "harness reference decoder (cross-checked against the png crate in C02).",
         "technique": "Lean 4 proof (per-pixel exactness lemmas) + exact model/implementation correspondence + e2e oracle",
-        "partial_note": "image-level theorems proved for seven of the ten reductions; bit packing 1/2/4<->8 and the interlacing change are at per-pixel / geometry level; the chain over perform_reductions is tied by lineage streams",
+        "partial_note": "all ten reductions have image-level theorems; the interlacing change is at placement-table level; the chain over perform_reductions is tied by lineage streams",
         "rule": "corr-reduce: each of the 10 modelled reductions on images biased to its domain (hi==lo 16-bit, gray-valued RGB, replicated bit patterns, opaque/binary alpha, keys used/unused/near-miss, "
                 "palettes with duplicates/unused/transparent entries), flags random; e2e: generated PNGs (15 type/depth pairs, interlaced or not, random row filters, split IDAT) x generated options; "
                 "distinct = distinct request lines / (input, options) pairs",
